@@ -9,6 +9,7 @@ import (
 	"path/filepath"
 	"runtime"
 	"sort"
+	"strings"
 	"sync"
 	"sync/atomic"
 	"testing"
@@ -104,12 +105,16 @@ type c09Plan struct {
 	valid    [c09Updaters][]bool
 	yields   [c09Updaters][]int
 	reads    int
+	readers  int // number of reader goroutines (default c09Readers)
 	advances []c09Advance
 	toggles  []uint32
-	// paced: updaters and readers keep going (cycling through their entries,
-	// with short sleeps) until the advancer is done; used when the rollover is
-	// left to the real hourly loop, which polls once per second.
-	paced bool
+	// paced: updaters and readers keep going (cycling through their entries)
+	// until the advancer is done.  With updSleep / readSleep > 0 they sleep
+	// between calls (used when the rollover is left to the real hourly loop,
+	// which polls once per second); with zero sleeps they hammer (storm shape:
+	// the advancer rolls over many times back to back).
+	paced               bool
+	updSleep, readSleep time.Duration
 }
 
 // c09Advance is one rollover of a round.
@@ -126,7 +131,10 @@ type c09Advance struct {
 func (c *c09Conc) runRound(p *c09Plan) (ops []c09COp) {
 	var wg sync.WaitGroup
 	gate := make(chan struct{})
-	results := make([][]c09COp, c09Updaters+c09Readers)
+	if p.readers == 0 {
+		p.readers = c09Readers
+	}
+	results := make([][]c09COp, c09Updaters+p.readers)
 	roundBase := c.completed.Load()
 	var updatersDone atomic.Int32
 	var advDone atomic.Bool
@@ -144,7 +152,9 @@ func (c *c09Conc) runRound(p *c09Plan) (ops []c09COp) {
 					if advDone.Load() || n >= pacedMax {
 						break
 					}
-					time.Sleep(400 * time.Microsecond)
+					if p.updSleep > 0 {
+						time.Sleep(p.updSleep)
+					}
 				} else if n >= len(p.entries[g]) {
 					break
 				}
@@ -174,7 +184,7 @@ func (c *c09Conc) runRound(p *c09Plan) (ops []c09COp) {
 			results[g] = mine
 		}(g)
 	}
-	for rd := 0; rd < c09Readers; rd++ {
+	for rd := 0; rd < p.readers; rd++ {
 		wg.Add(1)
 		go func(rd int) {
 			defer wg.Done()
@@ -188,7 +198,9 @@ func (c *c09Conc) runRound(p *c09Plan) (ops []c09COp) {
 					if i >= pacedMax {
 						break
 					}
-					time.Sleep(2 * time.Millisecond)
+					if p.readSleep > 0 {
+						time.Sleep(p.readSleep)
+					}
 				}
 				op := c09COp{Client: c09Updaters + rd, Kind: "read"}
 				op.Lo = c.completed.Load()
@@ -207,6 +219,7 @@ func (c *c09Conc) runRound(p *c09Plan) (ops []c09COp) {
 	}
 	advProblems := make([]string, len(p.advances))
 	advHours := make([]uint32, len(p.advances))
+	advTimes := make([][2]int64, len(p.advances))
 	if len(p.advances) > 0 {
 		wg.Add(1)
 		go func() {
@@ -217,6 +230,7 @@ func (c *c09Conc) runRound(p *c09Plan) (ops []c09COp) {
 					runtime.Gosched()
 				}
 				c.seq.Add(1) // odd: rollover in progress
+				advTimes[ai][0] = c.now()
 				want := c.hour.Add(a.Hours)
 				advHours[ai] = want
 				if a.ViaLoop {
@@ -230,7 +244,11 @@ func (c *c09Conc) runRound(p *c09Plan) (ops []c09COp) {
 				if advProblems[ai] == "" && c.in.unitHour() != want {
 					advProblems[ai] = "no-rollover"
 				}
+				advTimes[ai][1] = c.now()
 				c.seq.Add(1) // even: done
+				if p.paced && p.updSleep == 0 {
+					runtime.Gosched()
+				}
 			}
 			advDone.Store(true)
 		}()
@@ -256,13 +274,22 @@ func (c *c09Conc) runRound(p *c09Plan) (ops []c09COp) {
 	go func() { wg.Wait(); close(joined) }()
 	select {
 	case <-joined:
-	case <-time.After(90 * time.Second):
-		// Watchdog only: Update / flush / GET stats block each other for good.
-		// The goroutines cannot be joined any more, so the run ends here as
-		// inconclusive with a goroutine dump in the log.
-		buf := make([]byte, 1<<20)
-		fmt.Fprintf(os.Stderr, "C09 watchdog: round did not finish in 90 s\n%s\n", buf[:runtime.Stack(buf, true)])
-		c.rep.Inconcl("a round of concurrent Update / flush / GET /control/stats calls did not finish within the 90 s watchdog (goroutine dump in the part's log)")
+	case <-time.After(c09StallAfter):
+		// Update / flush / GET stats block each other for good.  The
+		// goroutines cannot be joined any more, so the run ends here.
+		buf := make([]byte, 4<<20)
+		dump := string(buf[:runtime.Stack(buf, true)])
+		fmt.Fprintf(os.Stderr, "C09 watchdog: round did not finish in %s\n%s\n", c09StallAfter, dump)
+		what := fmt.Sprintf("a round of concurrent Update / flush / GET /control/stats calls did not finish within %s", c09StallAfter)
+		if c09Prop() == "C09" {
+			// The C09 statement is about counts: a stall makes it unobservable.
+			c.rep.Inconcl(what + " (goroutine dump in the part's log)")
+		} else {
+			c.rep.Violate("stall:stats-round", what+": the statistics module's callers block each other",
+				map[string]any{"history": c.desc, "round": map[string]any{"rollovers": p.advances, "readers": p.readers, "paced": p.paced},
+					"updates_returned": c.completed.Load(), "updates_called": c.started.Load(),
+					"blocked_goroutines": c09DumpSummary(dump)})
+		}
 		_ = c.rep.Write()
 		os.Exit(3)
 	}
@@ -294,7 +321,115 @@ func (c *c09Conc) runRound(p *c09Plan) (ops []c09COp) {
 		ops = append(ops, r...)
 	}
 	sort.SliceStable(ops, func(i, j int) bool { return ops[i].Call < ops[j].Call })
+	// Evidence only: how many rollovers ran while reads / updates were in flight.
+	for _, at := range advTimes {
+		reads, incs := 0, 0
+		for _, op := range ops {
+			if op.Call <= at[1] && op.Ret >= at[0] {
+				if op.Kind == "read" {
+					reads++
+				} else {
+					incs++
+				}
+			}
+		}
+		if reads >= 1 {
+			c.rep.Event("rollovers_overlapping_a_read")
+		}
+		if reads >= 2 {
+			c.rep.Event("rollovers_overlapping_2_or_more_reads")
+		}
+		if reads >= 2 && incs >= 1 {
+			c.rep.Event("rollovers_overlapping_2_or_more_reads_and_an_update")
+		}
+	}
 	return ops
+}
+
+// c09StallAfter is the watchdog of one round (rounds take milliseconds, the
+// real-loop rounds two to three seconds).
+const c09StallAfter = 60 * time.Second
+
+// c09Prop is the property the concurrent monitor reports under.  The same
+// monitor is registered as a part of C05 (no stall while serving) with
+// VERIF_STATS_PROP=C05.
+func c09Prop() string {
+	if p := os.Getenv("VERIF_STATS_PROP"); p != "" {
+		return p
+	}
+	return "C09"
+}
+
+// c09Part is the part name (VERIF_STATS_PART; default "concurrent" under
+// C09, "stats" under any other property).
+func c09Part() string {
+	if p := os.Getenv("VERIF_STATS_PART"); p != "" {
+		return p
+	}
+	if c09Prop() == "C09" {
+		return "concurrent"
+	}
+	return "stats"
+}
+
+// c09DumpSummary condenses a goroutine dump: per goroutine that is inside the
+// stats package (or bbolt on its behalf), its state and its product frames.
+func c09DumpSummary(dump string) any {
+	count := map[string]int{}
+	for _, block := range strings.Split(dump, "\n\n") {
+		lines := strings.Split(block, "\n")
+		if len(lines) == 0 || !strings.HasPrefix(lines[0], "goroutine ") {
+			continue
+		}
+		state := lines[0]
+		if i := strings.Index(state, "["); i >= 0 {
+			state = strings.TrimSuffix(state[i:], ":")
+			if j := strings.Index(state, ","); j >= 0 {
+				state = state[:j] + "]"
+			}
+		}
+		var frames []string
+		for _, l := range lines[1:] {
+			if strings.HasPrefix(l, "\t") || strings.HasPrefix(l, "created by") {
+				continue
+			}
+			fn := l
+			if i := strings.LastIndex(fn, "("); i > 0 {
+				fn = fn[:i]
+			}
+			switch {
+			case strings.Contains(fn, "internal/stats.") && !strings.Contains(fn, "c09") && !strings.Contains(fn, "TestVerif"):
+				frames = append(frames, fn[strings.Index(fn, "internal/stats.")+len("internal/"):])
+			case strings.Contains(fn, "bbolt.(*DB).beginRWTx") || strings.Contains(fn, "bbolt.(*DB).Begin"):
+				frames = append(frames, "bbolt.(*DB).Begin")
+			case strings.Contains(fn, "sync.(*RWMutex)."):
+				frames = append(frames, fn[strings.Index(fn, "sync."):])
+			}
+		}
+		if len(frames) == 0 {
+			continue
+		}
+		hasStats := false
+		for _, f := range frames {
+			if strings.HasPrefix(f, "stats.") {
+				hasStats = true
+			}
+		}
+		if !hasStats {
+			continue
+		}
+		count[state+" "+strings.Join(frames, " <- ")]++
+	}
+	type row struct {
+		N     int    `json:"goroutines"`
+		Stack string `json:"state_and_frames_innermost_first"`
+	}
+	var rows []row
+	for k, n := range count {
+		rows = append(rows, row{n, k})
+	}
+	sort.Slice(rows, func(i, j int) bool { return rows[i].Stack < rows[j].Stack })
+	return rows
 }
 
 // checkReads applies the per-read checks that need no search: the read must
@@ -456,11 +591,14 @@ func (c *c09Conc) quiescent(where string) *c09Resp {
 // short rounds, each checked with porcupine; the advancer calls flush()),
 // "free" (one long round, several rollovers through flush()), "loop" (the
 // real Start() loop is the only flusher; traffic is paced until it has done
-// the rollovers).  flush() has exactly one caller in every shape, as in the
-// product.
+// the rollovers), "storm" (one round, 168 h window: the advancer calls
+// flush() for 24-60 consecutive hours back to back while 4 readers and the
+// updaters hammer without pauses).  flush() has exactly one caller in every
+// shape, as in the product.
 func c09ConcHistory(rep *verifkit.Report, rng *rand.Rand, dir string, idx int, shape string) {
 	free := shape != "rounds"
 	loopHistory := shape == "loop"
+	storm := shape == "storm"
 	file := filepath.Join(dir, fmt.Sprintf("conc-%d.db", idx))
 	defer os.Remove(file)
 	hour := &atomic.Uint32{}
@@ -468,6 +606,9 @@ func c09ConcHistory(rep *verifkit.Report, rng *rand.Rand, dir string, idx int, s
 	c := &c09Conc{rep: rep, hour: hour, start: time.Now(), limitH: []uint32{24, 24, 168}[rng.Intn(3)]}
 	c.hoursTable = []uint32{hour.Load()}
 	withToggles := rng.Intn(3) == 0
+	if storm {
+		c.limitH, withToggles = 168, false
+	}
 	c.desc = map[string]any{"index": idx, "first_hour": hour.Load(), "limit_hours": c.limitH, "shape": shape,
 		"updaters": c09Updaters, "readers": c09Readers, "retention_toggled_during_traffic": withToggles}
 	in, err := c09Open(file, hour, c.limitH, true, loopHistory)
@@ -506,7 +647,11 @@ func c09ConcHistory(rep *verifkit.Report, rng *rand.Rand, dir string, idx int, s
 					p.entries[g] = append(p.entries[g], e)
 					p.valid[g] = append(p.valid[g], false)
 				} else {
-					p.entries[g] = append(p.entries[g], c09ValidEntry(rng, 40, 60))
+					nc, nd := 40, 60
+					if storm {
+						nc, nd = 3, 5 // small units: the readers decode every stored hour
+					}
+					p.entries[g] = append(p.entries[g], c09ValidEntry(rng, nc, nd))
 					p.valid[g] = append(p.valid[g], true)
 					nValid++
 				}
@@ -518,8 +663,17 @@ func c09ConcHistory(rep *verifkit.Report, rng *rand.Rand, dir string, idx int, s
 			}
 		}
 		switch {
+		case storm:
+			p.paced, p.readers = true, 4
+			for i, k := 0, verifkit.Pick(24, 60); i < k; i++ {
+				a := c09Advance{Hours: 1}
+				if i == 0 {
+					a.After = 40
+				}
+				p.advances = append(p.advances, a)
+			}
 		case loopHistory:
-			p.paced = true
+			p.paced, p.updSleep, p.readSleep = true, 400*time.Microsecond, 2*time.Millisecond
 			for i := 0; i < 2; i++ {
 				p.advances = append(p.advances, c09Advance{Hours: 1 + uint32(rng.Intn(2)), After: 150 * (i + 1), ViaLoop: true})
 			}
@@ -568,7 +722,12 @@ func c09ConcHistory(rep *verifkit.Report, rng *rand.Rand, dir string, idx int, s
 		} else {
 			rep.EventN("updates_overlapping_a_rollover", overl)
 		}
-		roundDescs = append(roundDescs, map[string]any{"round": rd, "countable_updates": nValid, "rollovers": p.advances, "retention_toggles": p.toggles})
+		rd0 := map[string]any{"round": rd, "countable_updates": nValid, "rollovers": p.advances, "retention_toggles": p.toggles}
+		if storm {
+			rd0["rollovers"] = fmt.Sprintf("%d rollovers of 1 h back to back through flush()", len(p.advances))
+			rd0["readers"] = p.readers
+		}
+		roundDescs = append(roundDescs, rd0)
 		c.desc["rounds"] = roundDescs
 		c.checkReads(ops)
 		if !free {
@@ -577,11 +736,12 @@ func c09ConcHistory(rep *verifkit.Report, rng *rand.Rand, dir string, idx int, s
 		if !c.bad {
 			c.quiescent(fmt.Sprintf("after round %d", rd))
 		}
-		canon := fmt.Sprintf("%d/%d:", idx, rd)
+		var canon strings.Builder
+		fmt.Fprintf(&canon, "%d/%d:", idx, rd)
 		for _, op := range ops {
-			canon += fmt.Sprintf("%s%d>%d;", op.Kind[:1], op.Client, op.Out)
+			fmt.Fprintf(&canon, "%s%d>%d;", op.Kind[:1], op.Client, op.Out)
 		}
-		rep.Eval(len(p.advances) > 0 && overl > 0, canon)
+		rep.Eval(len(p.advances) > 0 && overl > 0, canon.String())
 		rep.Class("shape:" + shape)
 	}
 	if c.bad {
@@ -622,8 +782,8 @@ func c09ConcHistory(rep *verifkit.Report, rng *rand.Rand, dir string, idx int, s
 }
 
 func TestVerifC09Concurrent(t *testing.T) {
-	rep := verifkit.New("C09", "concurrent",
-		"case = one round of a concurrent history on a running module: 8 updater goroutines + 2 readers of GET /control/stats (+ hour advancer that either calls flush() as the only flusher or, with the real Start() loop alive, waits for it; + optional retention toggler); checked per read (between completed and started updates), per round with porcupine against a counter model, at quiescence exactly (totals, categories, per-hour bounds from the hour tags), and across a final clean restart; -race is on; non-trivial = the round had a rollover that overlapped at least one update; distinct by the observed operation order and read values")
+	rep := verifkit.New(c09Prop(), c09Part(),
+		"case = one round of a concurrent history on a running module: 8 updater goroutines + 2 readers of GET /control/stats (+ hour advancer that either calls flush() as the only flusher or, with the real Start() loop alive, waits for it; + optional retention toggler); checked per read (between completed and started updates), per round with porcupine against a counter model, at quiescence exactly (totals, categories, per-hour bounds from the hour tags), and across a final clean restart; -race is on; non-trivial = the round had a rollover that overlapped at least one update; distinct by the observed operation order and read values; storm rounds: 24-60 back-to-back rollovers under 4 hammering readers; reset rounds (C09 only): POST /control/stats_reset hammered against the real loop and readers while every tick is a rollover, then reset, count, advance, wait for the real loop, count, compare")
 	defer func() {
 		if err := rep.Write(); err != nil {
 			t.Fatal(err)
@@ -644,18 +804,285 @@ func TestVerifC09Concurrent(t *testing.T) {
 		switch {
 		case i%10 == 3:
 			shape = "loop"
+		case i%10 == 7:
+			shape = "storm"
 		case i%5 == 4:
 			shape = "free"
 		}
+		t0 := time.Now()
 		c09ConcHistory(rep, rng, dir, i, shape)
+		fmt.Fprintf(os.Stderr, "c09: history %d shape %s took %s\n", i, shape, time.Since(t0).Round(time.Millisecond))
+	}
+	need := []string{"rollovers", "rollovers_done_by_the_real_loop", "updates_overlapping_a_rollover",
+		"reads_overlapping_updates", "porcupine_linearizable", "restarts_after_traffic",
+		"rollovers_overlapping_2_or_more_reads_and_an_update"}
+	if c09Prop() == "C09" {
+		for i, k := 0, verifkit.Pick(3, 20); i < k && !rep.Violated(); i++ {
+			c09ResetLoopHistory(rep, rng, dir, i)
+		}
+		need = append(need, "reset_rounds_checked_after_real_loop_rotation", "resets_during_traffic")
 	}
 	if rep.Violated() {
 		return
 	}
-	for _, ev := range []string{"rollovers", "rollovers_done_by_the_real_loop", "updates_overlapping_a_rollover",
-		"reads_overlapping_updates", "porcupine_linearizable", "restarts_after_traffic"} {
+	for _, ev := range need {
 		if rep.EventCount(ev) == 0 {
 			rep.Inconcl("event never observed: " + ev)
 		}
+	}
+}
+
+// c09LoopGoroutine reports whether a goroutine of this process is inside
+// s.periodicFlush (matched by the receiver pointer in the traceback).
+func c09LoopGoroutine(s *StatsCtx) (found bool, frame string) {
+	buf := make([]byte, 8<<20)
+	dump := string(buf[:runtime.Stack(buf, true)])
+	needle := fmt.Sprintf("periodicFlush(%p", s)
+	i := strings.Index(dump, needle)
+	if i < 0 {
+		return false, ""
+	}
+	j := strings.LastIndex(dump[:i], "\n")
+	k := strings.Index(dump[i:], "\n")
+	if k < 0 {
+		k = len(dump) - i
+	}
+	return true, strings.TrimSpace(dump[j+1 : i+k])
+}
+
+// c09ResetLoopHistory: the real Start() loop is alive and every one of its
+// ticks is a rollover (the hour moves every 150 ms) while POST
+// /control/stats_reset is hammered and readers keep bbolt write transactions
+// open.  Nothing is asserted during that phase (reset concurrent with traffic
+// is not specified).  Then, at quiescence: reset, n1 updates, advance the
+// hour, wait for the real loop to rotate the unit, n2 updates; the report must
+// show n2 in the new hour and n1 in the old one.  If the loop does not rotate
+// within the wait, the case is skipped (a miss) unless a goroutine dump shows
+// that the loop's goroutine has ended: then waiting longer cannot help, and
+// the report is checked as it is.
+func c09ResetLoopHistory(rep *verifkit.Report, rng *rand.Rand, dir string, idx int) {
+	file := filepath.Join(dir, fmt.Sprintf("reset-%d.db", idx))
+	defer os.Remove(file)
+	hour := &atomic.Uint32{}
+	hour.Store(400000 + uint32(rng.Intn(100000)))
+	const limitH = 24
+	steps := []any{fmt.Sprintf("New(limit 24 h) at hour %d + Start()", hour.Load())}
+	in, err := c09Open(file, hour, limitH, true, true)
+	if err != nil {
+		rep.Violate("conc:new-failed", "stats.New failed on a fresh file: "+err.Error(), steps)
+		return
+	}
+	defer in.close()
+	violate := func(key, what string, extra map[string]any) {
+		w := map[string]any{"steps": steps}
+		for k, v := range extra {
+			w[k] = v
+		}
+		rep.Violate(key, what, w)
+	}
+
+	censusOK := false
+	for i := 0; i < 200 && !censusOK; i++ {
+		if censusOK, _ = c09LoopGoroutine(in.s); !censusOK {
+			time.Sleep(5 * time.Millisecond)
+		}
+	}
+	if !censusOK {
+		rep.Event("loop_goroutine_not_identifiable_in_dumps")
+	}
+
+	// Phase 1: reset storm.
+	entries := make([][]*Entry, 4)
+	for g := range entries {
+		for i := 0; i < 50; i++ {
+			entries[g] = append(entries[g], c09ValidEntry(rng, 40, 60))
+		}
+	}
+	n1, n2 := 20+rng.Intn(40), 20+rng.Intn(40)
+	adv := 1 + uint32(rng.Intn(2))
+	var after1, after2 []*Entry
+	for i := 0; i < n1; i++ {
+		after1 = append(after1, c09ValidEntry(rng, 40, 60))
+	}
+	for i := 0; i < n2; i++ {
+		after2 = append(after2, c09ValidEntry(rng, 40, 60))
+	}
+
+	var stop atomic.Bool
+	var wg sync.WaitGroup
+	var resets, resetFailed, readsOK, readsFailed, updates atomic.Int64
+	var panics sync.Map
+	wg.Add(1)
+	go func() { // resetter
+		defer wg.Done()
+		for !stop.Load() {
+			code, _, p := in.call("POST", "/control/stats_reset", "")
+			switch {
+			case p != nil:
+				panics.Store("POST /control/stats_reset", fmt.Sprint(p))
+			case code != 200:
+				resetFailed.Add(1)
+			default:
+				resets.Add(1)
+			}
+			runtime.Gosched()
+		}
+	}()
+	for rd := 0; rd < 3; rd++ {
+		wg.Add(1)
+		go func() {
+			defer wg.Done()
+			for !stop.Load() {
+				code, _, p := in.call("GET", "/control/stats", "")
+				switch {
+				case p != nil:
+					panics.Store("GET /control/stats", fmt.Sprint(p))
+				case code != 200:
+					readsFailed.Add(1) // the database is detached during a reset
+				default:
+					readsOK.Add(1)
+				}
+			}
+		}()
+	}
+	for g := range entries {
+		wg.Add(1)
+		go func(g int) {
+			defer wg.Done()
+			for i := 0; !stop.Load(); i++ {
+				if p := in.update(entries[g][i%len(entries[g])]); p != "" {
+					panics.Store("Update", p)
+				}
+				updates.Add(1)
+				time.Sleep(200 * time.Microsecond)
+			}
+		}(g)
+	}
+	wg.Add(1)
+	go func() { // every tick of the real loop sees a new hour
+		defer wg.Done()
+		for !stop.Load() {
+			time.Sleep(150 * time.Millisecond)
+			hour.Add(1)
+		}
+	}()
+	time.Sleep(2300 * time.Millisecond) // workload length only: two ticks of the 1 s loop
+	stop.Store(true)
+	joined := make(chan struct{})
+	go func() { wg.Wait(); close(joined) }()
+	select {
+	case <-joined:
+	case <-time.After(c09StallAfter):
+		buf := make([]byte, 4<<20)
+		dump := string(buf[:runtime.Stack(buf, true)])
+		fmt.Fprintf(os.Stderr, "C09 watchdog: reset round did not finish in %s\n%s\n", c09StallAfter, dump)
+		rep.Inconcl(fmt.Sprintf("a round of concurrent stats_reset / GET stats / Update calls against the real loop did not finish within %s (goroutine dump in the part's log)", c09StallAfter))
+		_ = rep.Write()
+		os.Exit(3)
+	}
+	rep.EventN("resets_during_traffic", int(resets.Load()))
+	rep.EventN("reads_during_resets_ok", int(readsOK.Load()))
+	rep.EventN("updates_during_resets", int(updates.Load()))
+	for i := int64(0); i < readsFailed.Load(); i++ {
+		rep.Unspec("read-failed-while-reset-in-progress")
+	}
+	for i := int64(0); i < resetFailed.Load(); i++ {
+		rep.Unspec("reset-failed-during-traffic")
+	}
+	steps = append(steps, fmt.Sprintf("2.3 s of traffic: %d resets, %d+%d reads (ok+failed), %d updates, hour advanced every 150 ms to %d",
+		resets.Load(), readsOK.Load(), readsFailed.Load(), updates.Load(), hour.Load()))
+	crashed := false
+	panics.Range(func(k, v any) bool {
+		violate("conc:reset-round:panic:"+k.(string), "a call panicked during the reset round: "+v.(string), nil)
+		crashed = true
+		return true
+	})
+	if crashed {
+		rep.Eval(false, "")
+		return
+	}
+
+	// Phase 2: quiescent.  Let a straggling tick finish, then start from a
+	// reset state.
+	for i := 0; i < 400 && in.unitHour() != hour.Load(); i++ {
+		time.Sleep(5 * time.Millisecond)
+	}
+	if p := in.reset(); p != "" {
+		violate("conc:reset-round:reset-failed", "POST /control/stats_reset failed at quiescence: "+p, nil)
+		return
+	}
+	h1 := hour.Load()
+	m := &c09Model{Hours: map[uint32]*c09Hour{}, Cur: h1, LimitH: limitH, Enabled: true}
+	steps = append(steps, fmt.Sprintf("quiescent: reset at hour %d", h1))
+	check := func(where string, loopGone bool, frame string) bool {
+		r, problem := in.read()
+		if problem != "" {
+			violate("conc:reset-round:read-failed", "GET /control/stats failed at quiescence: "+problem, nil)
+			return false
+		}
+		mm, _ := m.check(r)
+		if len(mm) == 0 {
+			return true
+		}
+		key := "conc:reset-round:" + mm[0].Kind
+		what := where + ": " + mm[0].Detail
+		if loopGone {
+			key += ":real-loop-ended"
+			what += fmt.Sprintf("; the goroutine of the hourly loop (seen after Start as %q) no longer exists, the unit of hour %d was never rotated", frame, in.unitHour())
+		}
+		violate(key, what, map[string]any{"mismatches": mm, "report": c09Brief(r, m.first()), "model": m.snapshot(),
+			"current_unit_hour": in.unitHour(), "clock_hour": hour.Load()})
+		return false
+	}
+	if !check("after reset", false, "") {
+		return
+	}
+	for _, e := range after1 {
+		in.update(e)
+		m.count(h1, e.Result)
+	}
+	steps = append(steps, fmt.Sprintf("%d countable updates in hour %d", n1, h1))
+	if !check("after the first batch", false, "") {
+		return
+	}
+	h2 := hour.Add(adv)
+	steps = append(steps, fmt.Sprintf("clock advanced to hour %d; waiting up to 5 s for the real loop (1 s period)", h2))
+	rotated := false
+	for i := 0; i < 1000 && !rotated; i++ {
+		if rotated = in.unitHour() == h2; !rotated {
+			time.Sleep(5 * time.Millisecond)
+		}
+	}
+	loopGone, frame := false, ""
+	if !rotated {
+		alive, _ := c09LoopGoroutine(in.s)
+		if !censusOK || alive {
+			// Slow, not dead (or cannot tell): nothing can be concluded.
+			rep.Unspec("real-loop-did-not-rotate-within-5s-but-is-alive")
+			rep.Eval(false, "")
+			return
+		}
+		loopGone = true
+		frame = fmt.Sprintf("periodicFlush(%p)", in.s)
+		steps = append(steps, "no rotation within 5 s; no goroutine is inside periodicFlush of this module any more")
+		rep.Event("reset_rounds_with_real_loop_gone")
+	} else {
+		steps = append(steps, "the real loop rotated the unit")
+	}
+	m.Cur = h2
+	m.expire()
+	for _, e := range after2 {
+		in.update(e)
+		m.count(h2, e.Result)
+	}
+	steps = append(steps, fmt.Sprintf("%d countable updates in hour %d", n2, h2))
+	ok := check("after advancing the clock and counting again", loopGone, frame)
+	if rotated {
+		rep.Event("reset_rounds_checked_after_real_loop_rotation")
+	}
+	rep.Eval(ok && rotated && resets.Load() > 0, fmt.Sprintf("reset-round|%d|%d|%d|%d|%d", idx, h1, n1, adv, n2))
+	rep.Class("shape:reset-vs-real-loop")
+	if idx == 0 {
+		rep.Sample(map[string]any{"reset_round": steps})
 	}
 }
